@@ -1,6 +1,7 @@
 #!/bin/bash
 # regenerate gen/GenMath.v (Tie A: scalar kernels, packing, pcg32 output/rotr/stream/multiplier; NO_SIMD forms)
-# and gen/SimdFacts.v (source-derived expression trees of the SIMD branches of rcp/rsqrt) from the current repo
+# gen/SimdFacts.v (expression trees of the SIMD branches of rcp/rsqrt) and gen/DistFacts.v (expression trees of the
+# float distributions of utility/random.h) from the current repo
 # sources; props/C07/check.py does the same on every run.
 cd "$(dirname "$0")"
 mkdir -p gen ../../build/include/rkcommon ../../build/C07
@@ -11,4 +12,6 @@ python3 ../../tools/cxx2coq/cxx2coq.py ../../tools/cxx2coq/inst/scalar.cpp gen/G
   && { cmp -s gen/GenMath.v.new gen/GenMath.v || mv gen/GenMath.v.new gen/GenMath.v; rm -f gen/GenMath.v.new; }
 python3 ../../props/C07/simdfacts.py "${VERIF_REPO:-/repo}" gen/SimdFacts.v.new \
   && { cmp -s gen/SimdFacts.v.new gen/SimdFacts.v || mv gen/SimdFacts.v.new gen/SimdFacts.v; rm -f gen/SimdFacts.v.new; }
+python3 ../../props/C07/distfacts.py "${VERIF_REPO:-/repo}" gen/DistFacts.v.new \
+  && { cmp -s gen/DistFacts.v.new gen/DistFacts.v || mv gen/DistFacts.v.new gen/DistFacts.v; rm -f gen/DistFacts.v.new; }
 true
